@@ -9,7 +9,17 @@
      ordered_exp_field ops lt   ordered field + `<` decided by PartialOrd + exp positive, increasing
    Element types: ANY commutative field (mean, variance, covariance, f1) / ANY ordered field with
    an exp oracle (softmax); `from_usize n` must be the number n (hypothesis Hfrom).  Both sets of
-   hypotheses are satisfied by Coq's reals (C14_nonvacuous). *)
+   hypotheses are satisfied by Coq's reals (C14_nonvacuous).
+   Session 3 additions: C14_cov_tensor_entry (the named route stated directly),
+   C14_softmax_shift_is_max (the subtracted value is THE maximum of the inputs; no exponent is
+   positive), C14_softmax_intermediates_bounded (exponentials in (0, 1], denominator in [1, N]:
+   large-magnitude stability as a theorem), C14_softmax_textbook (= e^z_i / sum_j e^z_j when exp(a - b) = exp a / exp b),
+   C14_softmax_order_iff (strict / tie / non-strict order, both directions), C14_f1_zero and
+   C14_f1_on_nonnegatives (the whole range p, r >= 0 incl. the degenerate point p = r = 0, the only
+   one with p + r = 0: the formula gives 0 in every field with total division; IEEE floats give
+   NaN there and are not modelled).
+   Limits: theorems are over (ordered) fields, not IEEE floats; float behaviour of softmax is
+   covered by the oracle op 7 of the correspondence only. *)
 From Coq Require Import List Arith NArith Reals Lra.
 From EasyML Require Import Base.Sx Model.Num Model.Stats Proofs.C14P Proofs.RealOps.
 Import ListNotations.
@@ -159,6 +169,102 @@ Proof.
   - cbn. field.
 Qed.
 
+(* ---- session 3 ---- *)
+(* the named-dimension route stated directly: entry (i, j) of covariance(tensor, fd) is the
+   population covariance of the feature vectors i and j selected along fd *)
+Theorem C14_cov_tensor_entry : forall R (ops : numops R), is_field ops ->
+  (forall n : N, nof_N ops n = Some (natR ops (N.to_nat n))) ->
+  forall (m : list (list R)) (r c n0 n1 : nat), wf_mat m r c -> 0 < r -> 0 < c -> n0 <> n1 ->
+  (exists C, covariance ops (n0, n1) m n0 = Ok ((name_i, N.of_nat r), (name_j, N.of_nat r), C) /\
+     forall i j, i < r -> j < r -> entry ops C i j = cov_spec ops (row_iter m i) (row_iter m j)) /\
+  (exists C, covariance ops (n0, n1) m n1 = Ok ((name_i, N.of_nat c), (name_j, N.of_nat c), C) /\
+     forall i j, i < c -> j < c ->
+       entry ops C i j = cov_spec ops (column_iter ops m i) (column_iter ops m j)).
+Proof. exact @cov_tensor_entry. Qed.
+
+(* THE SHIFT IS THE MAXIMUM.  The value softmax subtracts before exponentiating is an element of
+   the input that no element exceeds, and the only such value; softmax is the quotient written
+   with exactly that shift; hence no exponent is positive and at least one is zero (the reason
+   large inputs cannot overflow).  A softmax that shifts by anything else (e.g. max(0, inputs))
+   differs from this model, and the exact correspondence sees it on Rat / Fp, where the stand-in
+   exp is a polynomial and therefore NOT shift invariant. *)
+Theorem C14_softmax_shift_is_max : forall R (ops : numops R) (lt : R -> R -> Prop),
+  ordered_exp_field ops lt ->
+  forall l : list R, l <> [] ->
+  exists mx, max_by ops l = Some mx /\ In mx l /\ (forall x, In x l -> ~ lt mx x) /\
+    (forall m, In m l -> (forall x, In x l -> ~ lt m x) -> m = mx) /\
+    softmax ops l =
+      map (fun x => ndiv ops (nexp ops (nsub ops x mx))
+                         (sumR ops (map (fun y => nexp ops (nsub ops y mx)) l))) l /\
+    (forall x, In x l -> ~ lt (nzero ops) (nsub ops x mx)) /\
+    (exists x, In x l /\ nsub ops x mx = nzero ops).
+Proof. exact @softmax_shift_is_max. Qed.
+
+(* LARGE-MAGNITUDE STABILITY as a theorem (exp 0 = 1 besides the ordered-field facts): with the
+   maximum as shift every exponential softmax evaluates lies in (0, 1] and the denominator in
+   [1, N], for inputs of ANY magnitude: nothing can overflow, the denominator cannot vanish *)
+Theorem C14_softmax_intermediates_bounded : forall R (ops : numops R) (lt : R -> R -> Prop),
+  ordered_exp_field ops lt -> nexp ops (nzero ops) = none_ ops ->
+  forall l : list R, l <> [] ->
+  exists mx, max_by ops l = Some mx /\
+    (forall x, In x l -> lt (nzero ops) (nexp ops (nsub ops x mx)) /\
+                         ~ lt (none_ ops) (nexp ops (nsub ops x mx))) /\
+    ~ lt (sumR ops (map (fun y => nexp ops (nsub ops y mx)) l)) (none_ ops) /\
+    ~ lt (natR ops (length l)) (sumR ops (map (fun y => nexp ops (nsub ops y mx)) l)).
+Proof. exact @softmax_intermediates_bounded. Qed.
+
+(* the documented formula softmax(z)[i] = e^z_i / sum_j e^z_j, for every exp that turns
+   differences into quotients (the real exponential does: C14_nonvacuous_session3) *)
+Theorem C14_softmax_textbook : forall R (ops : numops R) (lt : R -> R -> Prop),
+  ordered_exp_field ops lt ->
+  (forall a b, nexp ops (nsub ops a b) = ndiv ops (nexp ops a) (nexp ops b)) ->
+  forall l : list R,
+  softmax ops l = map (fun x => ndiv ops (nexp ops x) (sumR ops (map (nexp ops) l))) l.
+Proof. exact @softmax_textbook. Qed.
+
+(* order relations are preserved in both directions: strict order, ties, non-strict order *)
+Theorem C14_softmax_order_iff : forall R (ops : numops R) (lt : R -> R -> Prop),
+  ordered_exp_field ops lt ->
+  forall (l : list R) (i j : nat), i < length l -> j < length l ->
+  let x k := nth k l (nzero ops) in let s k := nth k (softmax ops l) (nzero ops) in
+  (lt (x i) (x j) <-> lt (s i) (s j)) /\ (x i = x j <-> s i = s j) /\
+  (~ lt (x j) (x i) <-> ~ lt (s j) (s i)).
+Proof. exact @softmax_order_iff. Qed.
+
+(* f1 with a zero argument is zero in ANY field (0 * 1/(p + r), whatever 1/0 is) — this covers
+   the degenerate point p = r = 0, where p + r = 0 and the harmonic mean has no value *)
+Theorem C14_f1_zero : forall R (ops : numops R), is_field ops ->
+  forall p r : R, p = nzero ops \/ r = nzero ops -> f1_score ops p r = nzero ops.
+Proof. exact @f1_zero. Qed.
+
+(* f1 on all non-negative p, r (no side condition on p + r): the harmonic mean when both are
+   positive, zero when one is zero, and p + r = 0 happens only at p = r = 0 *)
+Theorem C14_f1_on_nonnegatives : forall R (ops : numops R) (lt : R -> R -> Prop),
+  ordered_exp_field ops lt ->
+  forall p r : R, ~ lt p (nzero ops) -> ~ lt r (nzero ops) ->
+  (lt (nzero ops) p -> lt (nzero ops) r ->
+     f1_score ops p r =
+     ndiv ops (nadd ops (none_ ops) (none_ ops))
+              (nadd ops (ndiv ops (none_ ops) p) (ndiv ops (none_ ops) r))) /\
+  (p = nzero ops \/ r = nzero ops -> f1_score ops p r = nzero ops) /\
+  (nadd ops p r = nzero ops -> p = nzero ops /\ r = nzero ops).
+Proof. exact @f1_on_nonnegatives. Qed.
+
+(* non-vacuity of the extra hypothesis of C14_softmax_textbook: the real exponential *)
+Example C14_nonvacuous_session3 :
+  ordered_exp_field Rops Rlt /\
+  (forall a b : R, nexp Rops (nsub Rops a b) = ndiv Rops (nexp Rops a) (nexp Rops b)) /\
+  nexp Rops (nzero Rops) = none_ Rops /\
+  max_by Rops [1; 3; 2]%R = Some 3%R /\ f1_score Rops 0%R 0%R = 0%R.
+Proof.
+  split; [exact Rops_ordered|]. split; [|split; [exact exp_0|]].
+  - intros a b. cbn. unfold Rminus, Rdiv. now rewrite exp_plus, exp_Ropp.
+  - split.
+    + cbn. unfold max_step. cbn. unfold Rltb.
+      destruct (Rlt_dec 3 1) as [H|H]; [lra|]. destruct (Rlt_dec 2 3) as [H2|H2]; [reflexivity|lra].
+    + unfold f1_score. cbn. unfold Rdiv. ring.
+Qed.
+
 Print Assumptions C14_mean.
 Print Assumptions C14_variance.
 Print Assumptions C14_empty_panics.
@@ -174,3 +280,10 @@ Print Assumptions C14_softmax_sums_to_one.
 Print Assumptions C14_softmax_order_preserving.
 Print Assumptions C14_softmax_shift_invariant.
 Print Assumptions C14_f1_harmonic.
+Print Assumptions C14_cov_tensor_entry.
+Print Assumptions C14_softmax_shift_is_max.
+Print Assumptions C14_softmax_intermediates_bounded.
+Print Assumptions C14_softmax_textbook.
+Print Assumptions C14_softmax_order_iff.
+Print Assumptions C14_f1_zero.
+Print Assumptions C14_f1_on_nonnegatives.
